@@ -156,6 +156,18 @@ theorem reverse_eq (E : Env) (e : Ty) (he : e.equals e = true) (ts : List Ty) (v
       reverseImpl E [⟨.tuple ts, .seq vs⟩] (.tuple ts.reverse) = .ok ⟨.tuple ts.reverse, .seq vs.reverse⟩) :=
   ⟨reverseImpl_list E e he vs, reverseImpl_tuple E ts vs⟩
 
+/-- **reverse of a set**: a wholly known set gives the list of its members in reversed
+iteration order; a set holding a member that is not wholly known gives an unknown
+of the result type carrying the argument's marks (neither the order nor the
+number of members is settled yet) -/
+theorem reverse_set (E : Env) (e : Ty) (he : e.equals e = true) (ids : List Int) (vs : List Payload)
+    (arg : Value) (retTy : Ty) :
+    (Payload.whollyKnownL vs = true →
+      reverseImpl E [⟨.set e, .sset ids vs⟩] (.list e) = .ok (mkList e (setIter E e vs).reverse)) ∧
+    (arg.ty = .set e → arg.unmark.whollyKnown = false →
+      reverseImpl E [arg] retTy = .ok (withMarkSets (Value.unknown retTy) [arg.marks])) :=
+  ⟨reverseImpl_set_known E e he ids vs, reverseImpl_set_unknown E arg e retTy⟩
+
 /-- result type of `reverse`: a list for a list or a set, the reversed tuple type for a tuple -/
 theorem reverse_type (e : Ty) (ts : List Ty) (p : Payload) :
     reverseType [⟨.list e, p⟩] = .ok (.list e) ∧ reverseType [⟨.set e, p⟩] = .ok (.list e) ∧
@@ -325,19 +337,20 @@ theorem setproduct_empty_and_arity (E : Env) (lists : List (Ty × List Payload))
 
 /-! ## range -/
 
-/-- **range(start, end, step)** inside its domain is the arithmetic progression
-from `start` by `step` (big-float addition as `Value.Add` performs it) up to but
-excluding the first term at or beyond `end`, as a list of numbers. -/
-theorem range_progression (E : Env) (hz : E.stepIsZeroSingleton = false) (a b s : Num) (retTy : Ty)
+/-- **range(start, end, step)** inside its domain (finite non-zero step, end on the
+side of start the step points to, at most 1024 terms) is the arithmetic
+progression from `start` by `step` (big-float addition as `Value.Add` performs
+it) up to but excluding the first term at or beyond `end`, as a list of numbers. -/
+theorem range_progression (E : Env) (a b s : Num) (hz : isZeroStep s = false) (retTy : Ty)
     (hf : isFin s = true) (hdir : dirOk (stepDown s) a b = true) (vals : List Num)
     (hp : Spec.IsProgression (nextNum s) (reached (stepDown s) b) a vals) (hlen : vals.length ≤ 1024) :
     rangeImpl E [numVal a, numVal b, numVal s] retTy = .ok (mkList .number (vals.map Payload.n)) :=
-  rangeImpl_three_ok E hz a b s retTy hf hdir vals hp hlen
+  rangeImpl_three_ok E a b s hz retTy hf hdir vals hp hlen
 
 /-- **…and fails outside it**: when 1024 terms do not reach the end, when the end
 lies on the wrong side of the start for the direction of the step, and when the
 step is infinite. -/
-theorem range_fails_outside_domain (E : Env) (hz : E.stepIsZeroSingleton = false) (a b s : Num) (retTy : Ty)
+theorem range_fails_outside_domain (E : Env) (a b s : Num) (hz : isZeroStep s = false) (retTy : Ty)
     (va vb : Value) (n : Bool) :
     (isFin s = true →
       (∀ k, k ≤ 1024 → reached (stepDown s) b (Spec.iterNth (nextNum s) k a) = false) →
@@ -345,8 +358,8 @@ theorem range_fails_outside_domain (E : Env) (hz : E.stepIsZeroSingleton = false
     (isFin s = true → dirOk (stepDown s) a b = false →
       Fails (rangeImpl E [numVal a, numVal b, numVal s] retTy)) ∧
     Fails (rangeImpl E [va, vb, numVal (.inf n)] retTy) :=
-  ⟨fun hf h => rangeImpl_three_limit E hz a b s retTy hf h,
-   fun hf h => rangeImpl_three_dir E hz a b s retTy hf h,
+  ⟨fun hf h => rangeImpl_three_limit E a b s hz retTy hf h,
+   fun hf h => rangeImpl_three_dir E a b s hz retTy hf h,
    rangeImpl_three_inf E va vb n retTy⟩
 
 /-- one and two arguments are the three-argument form with `start = 0` and step
@@ -360,38 +373,17 @@ theorem range_defaults (E : Env) (a b : Num) (retTy : Ty) (args : List Value) :
     (args.length = 0 ∨ 3 < args.length → Fails (rangeImpl E args retTy)) :=
   ⟨rangeImpl_two E a b retTy, rangeImpl_one E a retTy, rangeImpl_arity E args retTy⟩
 
-/-- the `step == cty.Zero` test of the code is a comparison with the package
-singleton (the same `*big.Float`): when it holds the call is rejected -/
-theorem range_zero_singleton_rejected (E : Env) (hz : E.stepIsZeroSingleton = true) (a b c : Value) (retTy : Ty) :
-    rangeImpl E [a, b, c] retTy = .err "step must not be zero" := by
-  simp [rangeImpl, hz]
+/-- **A zero step is always rejected** — every zero, of either sign and any
+precision, not only the package singleton `cty.Zero` (the test is
+`step.RawEquals(cty.Zero)` since /repo 43466b5; before that it compared
+`*big.Float` pointers and `range(1, 1, 0)` returned the empty list). -/
+theorem RangeZeroStepRejected (E : Env) (a b : Value) (n : Bool) (p : Nat) (retTy : Ty) :
+    rangeImpl E [a, b, numVal (.fin n 0 0 p)] retTy = .err "step must not be zero" :=
+  rangeImpl_three_zero E a b _ (isZeroStep_zero n p) retTy
 
-/-- **FULL STATEMENT (false of the code)**: "a zero step is always rejected". -/
-def RangeZeroStepRejected : Prop :=
-  ∀ (E : Env) (a b s : Num) (retTy : Ty), Num.isZero s = true →
-    Fails (rangeImpl E [numVal a, numVal b, numVal s] retTy)
-
-/-- …what holds: a zero step that is not the `cty.Zero` singleton is rejected
-only through the 1024-element limit, i.e. when `start` has not already reached
-`end`; and it IS the progression theorem above otherwise. -/
-theorem range_zero_step_partial (E : Env) (hz : E.stepIsZeroSingleton = false) (a b s : Num) (retTy : Ty)
-    (hf : isFin s = true)
-    (hstuck : ∀ k, k ≤ 1024 → reached (stepDown s) b (Spec.iterNth (nextNum s) k a) = false) :
-    Fails (rangeImpl E [numVal a, numVal b, numVal s] retTy) :=
-  rangeImpl_three_limit E hz a b s retTy hf hstuck
-
-/-- witness: `range(1, 1, 0)` with a zero that is not the singleton returns the
-empty list instead of the "step must not be zero" error -/
-theorem range_zero_step_counterexample :
-    rangeImpl {} [intVal 1, intVal 1, intVal 0] (.list .number) = .ok (listEmpty .number) := by rfl
-
-theorem rangeZeroStepRejected_false : ¬ RangeZeroStepRejected := by
-  intro h
-  obtain ⟨c, hc⟩ := h {} (Num.ofInt 1) (Num.ofInt 1) (Num.ofInt 0) (.list .number) (by decide)
-  have := range_zero_step_counterexample
-  simp only [intVal] at this
-  rw [this] at hc
-  exact absurd hc (by simp)
+/-- the former witness, as a regression case -/
+theorem range_zero_step_regression :
+    rangeImpl {} [intVal 1, intVal 1, intVal 0] (.list .number) = .err "step must not be zero" := by rfl
 
 /-! ## merge of null objects -/
 
@@ -661,7 +653,8 @@ example : Spec.IsProgression (nextNum (Num.ofInt 2)) (reached false (Num.ofInt 5
   match k, hk with
   | 0, _ => decide
   | 1, _ => decide
-example : isFin (Num.ofInt 2) = true ∧ dirOk (stepDown (Num.ofInt 2)) (Num.ofInt 1) (Num.ofInt 5) = true := by decide
+example : isFin (Num.ofInt 2) = true ∧ dirOk (stepDown (Num.ofInt 2)) (Num.ofInt 1) (Num.ofInt 5) = true ∧
+    isZeroStep (Num.ofInt 2) = false := by decide
 example : Spec.IsMapOf [("b", 1), ("a", 2), ("b", 3)] [("a", 2), ("b", 3)] := by
   refine ⟨by decide, ?_⟩
   intro k
@@ -678,6 +671,8 @@ example : isNest (.tuple [.list .string, .number]) (.seq [.seq [.s "a", .s "b"],
 example : (flatElem (.tuple [.list .string, .number]) (.seq [.seq [.s "a", .s "b"], .n (Num.ofInt 1)])).length = 3 := by
   decide
 example : Ty.conformErrs (.list .string) (.list .string) = 0 := by decide
+example : (⟨.set .number, .marked ["m"] (.sset [1, 2] [.n (Num.ofInt 1), .unk .unref])⟩ : Value).unmark.whollyKnown = false := by
+  decide
 
 end C13
 end CtyModel
